@@ -188,8 +188,17 @@ impl<R: Round> Context<R> {
             panic_power_negative_base()
         }
 
-        // x^y = exp(y*ln(x)), use a simple rule for guard bits
-        let guard_digits = 10 + self.precision.log2_est() as usize;
+        // x^y = exp(y*ln(x)), use a simple rule for guard bits.
+        // The product y*ln(x) must be known to an absolute (not relative) accuracy of B^-p,
+        // so its integer digits are added to the guard digits.
+        let ln_base_ub = base.log2_est().abs() as usize + 1; // |ln(base)| <= |log2(base)|
+        let arg_log2 = exp.log2_est() + ln_base_ub.log2_est();
+        let arg_digits = if arg_log2 > 0. {
+            (arg_log2 / B.log2_est()) as usize + 1
+        } else {
+            0
+        };
+        let guard_digits = 10 + self.precision.log2_est() as usize + arg_digits;
         let work_context = Context::<R>::new(self.precision + guard_digits);
 
         let res = work_context
@@ -281,14 +290,27 @@ impl<R: Round> Context<R> {
             let context = Context::<R>::new(work_precision);
             (0, 0, FBig::new(context.repr_round_ref(x).value(), context))
         } else {
-            work_precision = self.precision + series_guard_digits + pow_guard_digits;
+            // here m is roughly equal to sqrt(self.precision)
+            let n = 1usize << (self.precision.bit_len() / 2);
+
+            // The reduction r = x - s logB cancels as many leading digits as s has, and the final
+            // powering exp(r)^(Bⁿ) amplifies the relative error of the series by Bⁿ: both have to be
+            // covered by the working precision.
+            let x_log2 = x.log2_est();
+            let int_digits = if x_log2 > 0. {
+                (x_log2 / B.log2_est()) as usize + 1
+            } else {
+                0
+            };
+            work_precision = self.precision
+                + series_guard_digits
+                + pow_guard_digits.max(n + 2)
+                + int_digits;
             let context = Context::<R>::new(work_precision);
             let x = FBig::new(context.repr_round_ref(x).value(), context);
             let logb = context.ln_base::<B>();
             let (s, r) = x.div_rem_euclid(logb);
 
-            // here m is roughly equal to sqrt(self.precision)
-            let n = 1usize << (self.precision.bit_len() / 2);
             let s: isize = s.try_into().expect("exponent is too large");
             (s, n, r)
         };
